@@ -719,7 +719,8 @@ def handleCore (mac : Bool) (args : List String) (obs : String) : Option Reply :
             match (ex.getD i default).arg with
             | some a => !a.isEmpty && labelOf (lineAt implOut (labelsB.getD i 0)) ≠ a
             | none => false
-          if bad ∧ !clash then ["[C17] a case was run with an argument other than the one its label names"] else []
+          -- (line indices are the model's: only meaningful when the two texts agree)
+          if bad ∧ !clash ∧ hexS outTxt = seg 'O' then ["[C17] a case was run with an argument other than the one its label names"] else []
         else []))
   let verdict := if v.isEmpty then "ok" else "bad:" ++ " ;; ".intercalate v
   -- the hypothesis of the C16 order theorems, evaluated on this very tree
